@@ -4,7 +4,7 @@
 # each applies to a fresh worktree of /repo HEAD and that the unedited suite passes with it.
 export GOFLAGS=-mod=mod GOPROXY=off
 root=$1; first=$2
-for k in 1 2 3 4 5 6 7 8; do
+for k in ${KS:-1 2 3 4 5 6 7 8}; do
   for j in 1 2 3 4; do
     src=$root/$k/OUT/R$j.diff
     n=$((first+k-1))
